@@ -7,10 +7,15 @@ normalization passes (models of C10).
    assignment stores a value of the assigned variable's size, and every load/store address has pointer size."
 
 The typing walk is `WellSizedProgram` (C12/Model.lean). The theorems here: every rewriting step the
-optimizing passes perform maps well-sized terms to well-sized terms of the same size.
+optimizing passes perform maps well-sized terms to well-sized terms of the same size; with the lifting
+half (`C12/Lift.lean`: `lift_wellSized`, over the model of the lifting of C11) and the basic normalization
+(`C12/Basic.lean`: `normalizeBasic_wellSized`, over the model of C09) they compose to the statement of the
+property end to end on the models: `lift_then_normalize_wellSized` at the end of this file.
 -/
 import CweModel.C10.TrivialProofs
 import CweModel.C10.Propagation
+import CweModel.C12.Lift
+import CweModel.C12.Basic
 
 namespace CweModel.C12
 open CweModel CweModel.IR CweModel.C10
@@ -70,42 +75,8 @@ theorem substTrivialProgram_wellSized {p : Program} {ptr : Nat} (h : WellSizedPr
 an expression well-sized and of the same size (`Expression::substitute_input_var`, used by expression
 propagation and by the merging of assignments). -/
 theorem substVar_wellSized {v : Variable} {by_ : Expression} (hb : WellSized by_) (hs : by_.bytesize = v.size) :
-    SizePreserving (fun e => e.substVar v by_) := by
-  intro e
-  induction e with
-  | Var w =>
-    intro hw
-    simp only [Expression.substVar]
-    split
-    · next h => subst h; exact ⟨hb, hs⟩
-    · exact ⟨hw, rfl⟩
-  | Const b x => intro hw; exact ⟨hw, rfl⟩
-  | Unknown d s => intro hw; exact ⟨hw, rfl⟩
-  | BinOp op l r ihl ihr =>
-    intro hw
-    obtain ⟨hl1, hl2⟩ := ihl hw.1
-    obtain ⟨hr1, hr2⟩ := ihr hw.2.1
-    simp only at hl2 hr2
-    refine ⟨⟨hl1, hr1, ?_⟩, ?_⟩
-    · rw [hl2, hr2]; exact hw.2.2
-    · cases op <;> simp only [Expression.substVar, Expression.bytesize, hl2, hr2]
-  | UnOp op a ih =>
-    intro hw
-    obtain ⟨h1, h2⟩ := ih hw.1
-    simp only at h2
-    refine ⟨⟨h1, ?_⟩, ?_⟩
-    · rw [h2]; exact hw.2
-    · cases op <;> simp only [Expression.substVar, Expression.bytesize, h2]
-  | Cast op s a ih =>
-    intro hw
-    obtain ⟨h1, h2⟩ := ih hw.1
-    simp only at h2
-    exact ⟨⟨h1, hw.2.1, by rw [h2]; exact hw.2.2⟩, rfl⟩
-  | Subpiece lb s a ih =>
-    intro hw
-    obtain ⟨h1, h2⟩ := ih hw.1
-    simp only at h2
-    exact ⟨⟨h1, hw.2.1, by rw [h2]; exact hw.2.2⟩, rfl⟩
+    SizePreserving (fun e => e.substVar v by_) :=
+  substVar_ws hb hs   -- proved in C12/Lift.lean (needed there for the sub-register replacement)
 
 /-- **C12-dead-defs.** Removing defs keeps a block size-consistent (dead-variable elimination). -/
 theorem wellSizedBlk_filterDefs {ptr : Nat} {b : Blk} (h : WellSizedBlk ptr b) (keep : List (Term Def))
@@ -647,6 +618,27 @@ theorem normalizeOptimize_wellSized {arch : String} {sp : Variable} {phys : VarS
   unfold normalizeOptimize
   exact substituteAndOnStackpointer_wellSized (propagateControlFlow_wellSized
     (removeDeadProgram_wellSized (substTrivialProgram_wellSized (propagateProgram_wellSized h))))
+
+/-- **C12 (the property, end to end on the models).** For EVERY P-Code project the extractor can emit
+(`C11.projectOk`: consistent register table, well formed varnodes and instructions; `C11.projectSized`:
+operand sizes consistent with the operations as the P-Code manual prescribes), the program obtained by
+lifting (`parse_pcode_project_to_ir_project`, model `C11.Lift.liftProject`: implicit RAM accesses made
+explicit, `into_ir_project`, sub-register replacement) and then fully normalizing it (`Project::normalize`
+= `normalize_basic`, model `C09.normalizeBasic`, followed by `normalize_optimize`, model
+`C10.normalizeOptimize`) is size-consistent with the pointer size of the stack pointer register: operands of
+same-size operations have equal sizes, piece/subpiece/extension sizes are consistent with their operands,
+every assignment stores a value of the assigned variable's size, every load/store address and indirect
+target has pointer size, every branch condition one byte. -/
+theorem lift_then_normalize_wellSized {p : C11.Pcode.Project} (hp : C11.projectOk p = true)
+    (hs : C11.projectSized p = true) {prog : Program} (h : C11.Lift.liftProject p = some prog)
+    (progTid : Tid) (arch : String) (sp : Variable) (phys : VarSet) :
+    WellSizedProgram (normalizeOptimize arch sp phys (C09.normalizeBasic progTid prog)) p.pointerSize :=
+  normalizeOptimize_wellSized (normalizeBasic_wellSized progTid (lift_wellSized hp hs h))
+
+/-- non-vacuity: the hypotheses hold for the example project of `C12/Lift.lean` -/
+example (prog : Program) (h : C11.Lift.liftProject exProject = some prog) :
+    WellSizedProgram (normalizeOptimize "x86_64" ⟨"RSP", 8, false⟩ [] (C09.normalizeBasic ⟨"prog", "1000"⟩ prog)) 8 :=
+  lift_then_normalize_wellSized exProject_ok exProject_sized h _ _ _ _
 
 /-- the executable checker decides the property -/
 theorem wellSizedProgram_iff (p : Program) (ptr : Nat) :
